@@ -16,6 +16,9 @@ pub struct Case {
     pub lambda: F,
     pub n: u64,
     pub seed: u64,
+    /// samples of the rejection-branch stratum (default n/2)
+    #[serde(default)]
+    pub branch_n: Option<u64>,
 }
 
 fn strategy(n: u64) -> impl Strategy<Value = Case> {
@@ -24,8 +27,10 @@ fn strategy(n: u64) -> impl Strategy<Value = Case> {
         3 => (2u64..5000).prop_map(|m| ((m as f64) / ((m - 1) as f64)).ln()),
         1 => prop::sample::select(vec![std::f64::consts::LN_2, 0.5, 1.0, 1e-9, 40.0, 1e-3]),
         1 => (20.0f64..40.0),
+        // the range where all three constants of the acceptance-rejection scheme shape the result
+        3 => (0.2f64..12.0),
     ];
-    (lam, any::<u64>()).prop_map(move |(lambda, seed)| Case { lambda: F(lambda), n, seed })
+    (lam, any::<u64>()).prop_map(move |(lambda, seed)| Case { lambda: F(lambda), n, seed, branch_n: None })
 }
 
 /// target distribution function (1 - exp(-lambda x)) / (1 - exp(-lambda))
@@ -60,6 +65,53 @@ fn residual_cdf(lambda: f64, x: f64) -> f64 {
         }
     }
     num / den
+}
+
+
+/// number of bins of each kind (equal width in x, equal probability under the reference law) in the binned comparison
+const NBINS: usize = 64;
+
+/// Binned comparison (sharper than the sup-distance for a defect confined to a narrow window): `xs` sorted. The empirical mass of
+/// each of 64 equal-width bins and of each of 64 equal-probability bins of the reference distribution function is compared with its
+/// exact mass by Bernstein's inequality (per comparison delta 1e-14 / 128). Returns the first failing bin as text.
+fn binned(xs: &[f64], cdf: &dyn Fn(f64) -> f64) -> Option<String> {
+    let n = xs.len() as f64;
+    let l = L + (2.0 * NBINS as f64).ln();
+    let mut edges: Vec<(f64, f64)> = Vec::new(); // (lo, hi)
+    for k in 0..NBINS {
+        edges.push((k as f64 / NBINS as f64, (k + 1) as f64 / NBINS as f64));
+    }
+    // equal-probability edges by bisection on the reference distribution function
+    let mut q = vec![0.0f64];
+    for k in 1..NBINS {
+        let target = k as f64 / NBINS as f64;
+        let (mut lo, mut hi) = (0.0f64, 1.0f64);
+        for _ in 0..60 {
+            let mid = 0.5 * (lo + hi);
+            if cdf(mid) < target {
+                lo = mid;
+            } else {
+                hi = mid;
+            }
+        }
+        q.push(hi);
+    }
+    q.push(1.0);
+    for k in 0..NBINS {
+        if q[k + 1] > q[k] {
+            edges.push((q[k], q[k + 1]));
+        }
+    }
+    for (lo, hi) in edges {
+        let p = (cdf(hi) - cdf(lo)).clamp(0.0, 1.0);
+        let cnt = xs.partition_point(|x| *x < hi) - xs.partition_point(|x| *x < lo);
+        let f = cnt as f64 / n;
+        let tol = bernstein_tol(p * (1.0 - p), 1.0, l, n) + 1e-12;
+        if (f - p).abs() > tol {
+            return Some(format!("the interval [{:.6}, {:.6}) holds the fraction {:.6e} of {} samples, the law gives {:.6e} (Bernstein bound on the difference {:.3e})", lo, hi, f, xs.len(), p, tol));
+        }
+    }
+    None
 }
 
 /// first word forced, then a real generator; counts the words consumed
@@ -144,7 +196,7 @@ pub fn eval(c: &Case) -> Eval {
     let lambda = c.lambda.0;
     ensure!(lambda > 0.0 && lambda.is_finite(), "generator error");
     let d = ExpRestricted01::new(lambda);
-    let run = |seed: u64, n: u64| -> Result<f64, Fail> {
+    let run = |seed: u64, n: u64| -> Result<(f64, Option<String>), Fail> {
         let mut rng = Xoshiro256PlusPlus::seed_from_u64(seed);
         let mut xs: Vec<f64> = Vec::with_capacity(n as usize);
         for _ in 0..n {
@@ -152,13 +204,17 @@ pub fn eval(c: &Case) -> Eval {
             ensure!(x >= 0.0 && x < 1.0, "lambda = {:e}: sample {:e} outside [0,1)", lambda, x);
             xs.push(x);
         }
-        Ok(ks_distance(&mut xs, |x| cdf(lambda, x)))
+        let ks = ks_distance(&mut xs, |x| cdf(lambda, x));
+        Ok((ks, binned(&xs, &|x| cdf(lambda, x))))
     };
     let tol = |n: u64| dkw_tol(L, n as f64);
-    let d1 = run(c.seed, c.n)?;
-    if d1 > tol(c.n) {
-        let d2 = run(splitmix64(c.seed ^ 0xC0FFEE), 4 * c.n)?;
-        ensure!(d2 <= tol(4 * c.n), "lambda = {:e}: Kolmogorov distance to (1-exp(-lambda x))/(1-exp(-lambda)) is {:.5} (n = {}) and {:.5} on an independent seed (n = {}), DKW bounds {:.5} / {:.5}", lambda, d1, c.n, d2, 4 * c.n, tol(c.n), tol(4 * c.n));
+    let (d1, bins1) = run(c.seed, c.n)?;
+    if d1 > tol(c.n) || bins1.is_some() {
+        let (d2, bins2) = run(splitmix64(c.seed ^ 0xC0FFEE), 4 * c.n)?;
+        if let (Some(a), Some(b)) = (&bins1, &bins2) {
+            ensure!(false, "lambda = {:e}: binned comparison with (1-exp(-lambda x))/(1-exp(-lambda)) fails: {}; on an independent seed: {}", lambda, a, b);
+        }
+        ensure!(d1 <= tol(c.n) || d2 <= tol(4 * c.n), "lambda = {:e}: Kolmogorov distance to (1-exp(-lambda x))/(1-exp(-lambda)) is {:.5} (n = {}) and {:.5} on an independent seed (n = {}), DKW bounds {:.5} / {:.5}", lambda, d1, c.n, d2, 4 * c.n, tol(c.n), tol(4 * c.n));
     }
     // stratified test of the rejection branch (probability 1 - lambda/(e^lambda - 1), e.g. 5e-10 at lambda = 1e-9)
     let mut branch_checked = false;
@@ -171,8 +227,8 @@ pub fn eval(c: &Case) -> Eval {
             let (x, _) = forced_sample(&d, w, 5);
             ensure!(x >= 0.0 && x < 1.0, "lambda = {:e}: with the first generator word {:#x} (within 512 of the branch boundary) the sample is {:e}, outside [0,1)", lambda, w, x);
         }
-        let nb = (c.n / 8).max(50_000);
-        let runb = |seed: u64, n: u64| -> Result<f64, Fail> {
+        let nb = c.branch_n.unwrap_or(c.n / 2).max(50_000);
+        let runb = |seed: u64, n: u64| -> Result<(f64, Option<String>), Fail> {
             let mut r = SmRng::new(seed);
             let mut xs: Vec<f64> = Vec::with_capacity(n as usize);
             let span = u64::MAX - thr; // words thr ..= u64::MAX
@@ -182,12 +238,16 @@ pub fn eval(c: &Case) -> Eval {
                 ensure!(x >= 0.0 && x < 1.0, "lambda = {:e}: rejection branch returned {:e}, outside [0,1)", lambda, x);
                 xs.push(x);
             }
-            Ok(ks_distance(&mut xs, |x| residual_cdf(lambda, x)))
+            let ks = ks_distance(&mut xs, |x| residual_cdf(lambda, x));
+            Ok((ks, binned(&xs, &|x| residual_cdf(lambda, x))))
         };
-        let b1 = runb(c.seed ^ 0xB, nb)?;
-        if b1 > tol(nb) {
-            let b2 = runb(splitmix64(c.seed ^ 0xBEEF), 4 * nb)?;
-            ensure!(b2 <= tol(4 * nb), "lambda = {:e}: samples produced by the rejection branch (first uniform forced above {:.6}) have Kolmogorov distance {:.5} / {:.5} to the residual law ~ exp(lambda(1-x)) - 1, DKW bounds {:.5} / {:.5}", lambda, 1.0 / (lambda.exp_m1() / lambda), b1, b2, tol(nb), tol(4 * nb));
+        let (b1, rb1) = runb(c.seed ^ 0xB, nb)?;
+        if b1 > tol(nb) || rb1.is_some() {
+            let (b2, rb2) = runb(splitmix64(c.seed ^ 0xBEEF), 4 * nb)?;
+            if let (Some(a), Some(b)) = (&rb1, &rb2) {
+                ensure!(false, "lambda = {:e}: samples produced by the rejection branch: binned comparison with the residual law ~ exp(lambda(1-x)) - 1 fails: {}; on an independent seed: {}", lambda, a, b);
+            }
+            ensure!(b1 <= tol(nb) || b2 <= tol(4 * nb), "lambda = {:e}: samples produced by the rejection branch (first uniform forced above {:.6}) have Kolmogorov distance {:.5} / {:.5} to the residual law ~ exp(lambda(1-x)) - 1, DKW bounds {:.5} / {:.5}", lambda, 1.0 / (lambda.exp_m1() / lambda), b1, b2, tol(nb), tol(4 * nb));
         }
         branch_checked = true;
         branch_samples = nb;
@@ -205,11 +265,19 @@ pub fn eval(c: &Case) -> Eval {
 pub fn run(ctx: &Ctx) {
     ctx.set_rule("proptest generates lambda (log-uniform 1e-9..40, ln(m/(m-1)) for generated m as used by ProbMinHash3, ln 2, 0.5, 1, 40) and a generator seed. For each: n samples from a Xoshiro256++ stream; every sample must lie in [0,1) (exact); the Kolmogorov distance to the closed-form distribution function \
         (1-exp(-lambda x))/(1-exp(-lambda)) must be within the Dvoretzky-Kiefer-Wolfowitz bound (delta 1e-14, confirmed on an independent seed with 4x the samples). Stratified sub-check of the rejection branch: the first generator word is forced into the range that enters the branch (threshold found by bisection on the observed number of words consumed) \
-        and the conditional samples are compared by DKW with the residual law proportional to exp(lambda(1-x)) - 1. Every lambda is a non-trivial case; distinct = distinct (lambda, seed).");
+        and the conditional samples are compared by DKW with the residual law proportional to exp(lambda(1-x)) - 1. Both comparisons are also made bin by bin (64 equal-width and 64 equal-probability intervals, Bernstein bound per interval, delta 1e-14/128, confirmed on an independent seed), which resolves a defect confined to a narrow window. \
+        Sub-check grid: a stratified sweep, one lambda in every cell of width 1/8 (thorough: 1/32) of (0,12] (place inside the cell drawn from the run seed), same decisions. Every lambda is a non-trivial case; distinct = distinct (lambda, seed).");
     ctx.assume("the stratified sub-check assumes that the first generator word alone decides whether the rejection branch is entered; this is verified on the build under test and the sub-check is skipped (and reported as skipped) otherwise");
     super::run_fixed_tier(ctx, replay);
-    let (cases, n) = ctx.tier.pick((64, 4_000_000), (640, 20_000_000));
+    let (cases, n) = ctx.tier.pick((96, 4_000_000), (640, 20_000_000));
     ctx.drive("law", cases, 16, 12, || strategy(n), eval);
+    // stratified sweep of the range where the constants of the acceptance-rejection scheme change regime: one lambda in every
+    // cell of width `step` of (0, 12], its place inside the cell drawn from the run seed
+    let (step, gn, gb) = ctx.tier.pick((0.125f64, 2_000_000u64, 6_000_000u64), (0.03125, 4_000_000, 12_000_000));
+    let mut r = SmRng::new(mix(&[ctx.seed, 0xC16]));
+    let cells = (12.0 / step) as u64;
+    let grid: Vec<Case> = (0..cells).map(|i| Case { lambda: F(step * (i as f64 + (1 + r.below(1023)) as f64 / 1024.0)), n: gn, seed: r.next_u64(), branch_n: Some(gb) }).collect();
+    ctx.sweep("grid", &grid, 16, eval);
 }
 
 pub fn replay(ctx: &Ctx, sub: &str, case: &Value) -> Result<(), String> {
